@@ -27,7 +27,8 @@ PI = 3.141592653589793
 
 
 def _clamp(ctx, x):
-    return ctx.ite(x < 1, 1.0 + 0.0 * x, x)
+    # the same term the code builds (ite(x < 1, 1, x)), so that uninterpreted functions are applied to identical arguments
+    return ctx.ite(x < 1, 1, x)
 
 
 def _obs(ctx, name, v):
@@ -56,10 +57,12 @@ def _flat(v):
 # ------------------------------------------------------------------------------------------------ purity
 
 def purity(ctx, shape="needle", fn="thermoFactor", n=2):
-    """the array handed in is unchanged; entries < 1 give what 1 gives; scalar calls agree with the array call"""
+    """the array handed in is unchanged; entries < 1 give what 1 gives; scalar calls agree with the array call element by element
+    (arrays of length >= 3 can mix entries <= 1 with several distinct entries > 1)"""
     d = DESC[shape]()
     ar = ctx.reals("ar", n, (0.2, 4.0))
     before = [ar[i] * 1 for i in range(n)]
+    elems = [ar[i] for i in range(n)]          # the element values themselves (immutable scalars)
     out = getattr(d, fn)(ar)
     _obs(ctx, "out", out)
     ctx.prove("caller's aspect-ratio array is not modified", ctx.all([ctx.eq(ar[i], before[i], rtol=0.0) for i in range(n)]))
@@ -68,16 +71,23 @@ def purity(ctx, shape="needle", fn="thermoFactor", n=2):
     if np.shape(out) != want_shape:
         return
     # entries below 1 are treated as 1: same result as for the clamped array
-    cl = np.array([_clamp(ctx, before[i]) for i in range(n)])
+    # (the clamped array is built by case distinction, so that on every path the code sees either the entry itself or the constant 1)
+    cl = np.array([(1.0 if (elems[i] < 1) else elems[i]) for i in range(n)])
     out_cl = getattr(d, fn)(cl)
     ctx.prove("aspect ratios below 1 are treated as 1", ctx.all([ctx.eq(a, b) for a, b in zip(_flat(out), _flat(out_cl))]))
     # scalar calls
     for i in range(n):
-        s = getattr(d, fn)(before[i])
+        s = getattr(d, fn)(elems[i])
         _obs(ctx, "scalar%d" % i, s)
         ctx.prove("scalar call returns a scalar (a 3-vector for normalRadii)", np.shape(s) == ((3,) if fn == "normalRadii" else ()))
         row = _flat(out[i])
         ctx.prove("scalar and array calls agree", ctx.all([ctx.eq(a, b) for a, b in zip(_flat(s), row)]) if len(_flat(s)) == len(row) else False)
+    # reversed order of the entries: every entry keeps its own factor (position independence)
+    rev = np.array([elems[n - 1 - i] for i in range(n)])
+    out_rev = getattr(d, fn)(rev)
+    if np.shape(out_rev) == want_shape:
+        ctx.prove("factor of an entry does not depend on its position in the array",
+                  ctx.all([ctx.eq(a, b) for i in range(n) for a, b in zip(_flat(out[i]), _flat(out_rev[n - 1 - i]))]))
     ctx.prove("caller's aspect-ratio array is not modified (after scalar calls)", ctx.all([ctx.eq(ar[i], before[i], rtol=0.0) for i in range(n)]))
 
 
@@ -385,6 +395,63 @@ def rcrit_scalar(ctx, shape="needle"):
     ctx.prove("aspect ratio <= 1: the spherical critical radius", ctx.implies(a <= 1, ctx.eq(r, Rc)) if shape != "cubic" else True)
 
 
+SEQS = {
+    # name: (initial shape, steps); a step is (method name or "description", argument kind)
+    "description_setter": ("needle", [("description", "plate")]),
+    "description_setter_cubic": ("plate", [("description", "cubic")]),
+    "setPrecipitateShape": ("needle", [("setPrecipitateShape", "plate")]),
+    "setPrecipitateShape_instance": ("plate", [("setPrecipitateShape", "needle_instance")]),
+    "setPlateShape": ("needle", [("setPlateShape", None)]),
+    "setNeedleShape": ("cubic", [("setNeedleShape", None)]),
+    "setCuboidalShape": ("needle", [("setCuboidalShape", None)]),
+    "setSpherical": ("plate", [("setSpherical", None)]),
+    "setAspectRatio": ("needle", [("setAspectRatio", None)]),
+    "setter_then_ratio": ("needle", [("description", "plate"), ("setAspectRatio", None)]),
+    "ratio_then_setter": ("plate", [("setAspectRatio", None), ("description", "needle")]),
+    "callable_then_scalar": ("needle", [("setAspectRatio", "callable"), ("description", "plate"), ("setAspectRatio", None)]),
+}
+
+
+def rcrit_after_shape_change(ctx, seq="description_setter"):
+    """constant aspect ratio, shape / ratio changed through the public API before the search: findRcrit returns R with
+    R = R_sphere * thermoFactor(aspect(R)) of the description and aspect ratio that are active at the time of the call"""
+    shape0, steps = SEQS[seq]
+    a0 = ctx.real("ar0", (0.5, 5.0))
+    news = [ctx.real("ar%d" % (k + 1), (0.5, 5.0)) for k in range(len(steps))]
+    Rc = ctx.real("Rc", (0.5, 1.5)); Rmax = ctx.real("Rmax", (2.0, 6.0))
+    ctx.assume(Rc > 0)
+    sf = ShapeFactor(shape0, a0)
+    cur_ar, cur_desc, scalar = a0, DESC[shape0], True
+    for k, (what, arg) in enumerate(steps):
+        if what == "description":
+            sf.description = DESC[arg]()
+            cur_desc = DESC[arg]
+        elif what == "setPrecipitateShape":
+            if arg.endswith("_instance"):
+                sf.setPrecipitateShape(DESC[arg[:-9]](), news[k]); cur_desc = DESC[arg[:-9]]
+            else:
+                sf.setPrecipitateShape(arg, news[k]); cur_desc = DESC[arg]
+            cur_ar, scalar = news[k], True
+        elif what == "setAspectRatio":
+            if arg == "callable":
+                sf.setAspectRatio(lambda r: 1 + news[k] * r); scalar = False
+            else:
+                sf.setAspectRatio(news[k]); cur_ar, scalar = news[k], True
+        elif what == "setSpherical":
+            sf.setSpherical(news[k]); cur_desc, cur_ar, scalar = DESC["sphere"], 1.0, True
+        else:
+            getattr(sf, what)(news[k])
+            cur_desc = {"setPlateShape": DESC["plate"], "setNeedleShape": DESC["needle"], "setCuboidalShape": DESC["cubic"]}[what]
+            cur_ar, scalar = news[k], True
+    ctx.prove("active description is the one set last", type(sf.description) is cur_desc)
+    ctx.prove("constant aspect ratio selects the closed-form critical radius", scalar and sf.findRcrit == sf._findRcritScalar)
+    r = sf.findRcrit(Rc, Rmax)
+    _obs(ctx, "rcrit", r)
+    ctx.prove("R = R_sphere * factor(aspect(R)) for the active shape and aspect ratio", ctx.eq(r, Rc * sf.thermoFactor(r)))
+    ctx.prove("R = R_sphere * thermodynamic factor of a fresh description of the active shape at the active aspect ratio", ctx.eq(r, Rc * cur_desc().thermoFactor(cur_ar)))
+    ctx.prove("aspect ratio reported for the returned radius is the active one", ctx.eq(sf.aspectRatio(r), cur_ar))
+
+
 _FN = [ShapeDescriptionBase._processAspectRatio, ShapeDescriptionBase.normalRadii, ShapeDescriptionBase.eqRadiusFactor,
        ShapeDescriptionBase.kineticFactor, ShapeDescriptionBase.thermoFactor, ShapeDescriptionBase.eccentricity,
        SphereDescription._eqRadius, SphereDescription._normalRadii, SphereDescription._kineticFactor, SphereDescription._thermoFactor,
@@ -408,8 +475,9 @@ _RA = ["thermodynamic factor > 0, R_sphere > 0, R_sphere < Rmax, tol > 0",
        "only exits through the tolerance test are claimed (the 100-iteration give-up returns R_sphere and is outside the claim)",
        "a root is 'bracketed' when f(R_sphere) and f(Rmax) have strictly opposite signs"]
 HARNESSES = [
-    Harness("C15.purity", purity, functions=_FN, assumptions=_A, bounds={"array length": "n (thorough: 3 for the algebraic factors and the sphere, 2 otherwise)"},
-            params={"quick": _pur_q, "thorough": _pur_q + [dict(p, n=3) for p in _pur_q if p["shape"] == "sphere" or p["fn"] in ("normalRadii", "eqRadiusFactor")]}),
+    Harness("C15.purity", purity, functions=_FN, assumptions=_A, bounds={"array length": "n = 3 (thorough: 3 and 4): arrays that mix entries <= 1 with two or more distinct entries > 1"},
+            opts={"feas_defs": False, "max_paths": 700},
+            params={"quick": [dict(p, n=3) for p in _pur_q], "thorough": [dict(p, n=k) for p in _pur_q for k in (2, 4)]}),
     Harness("C15.radii", radii, functions=_FN, assumptions=_A + ["aspect ratio <= 100; unit volume to 1e-9 (the code's cbrt(3/(4 pi)) is a rounded double)"],
             params={"quick": [{"shape": s, "arr": False} for s in _SHAPES] + [{"shape": "needle", "arr": True}, {"shape": "plate", "arr": True}],
                     "thorough": [{"shape": s, "arr": a} for s in _SHAPES for a in (False, True)]}),
@@ -437,6 +505,9 @@ HARNESSES = [
             params={"quick": [{"kind": "uf", "k": 2}, {"kind": "needle", "k": 1}], "thorough": [{"kind": "uf", "k": 3}, {"kind": "needle", "k": 2}, {"kind": "plate", "k": 1}]}),
     Harness("C15.rcrit_scalar", rcrit_scalar, functions=_FN, assumptions=_A,
             params={"quick": [{"shape": s} for s in _SHAPES], "thorough": [{"shape": s} for s in _SHAPES]}),
+    Harness("C15.rcrit_after_shape_change", rcrit_after_shape_change, functions=_FN + [ShapeFactor.setSpherical, ShapeFactor.setNeedleShape, ShapeFactor.setPlateShape, ShapeFactor.setCuboidalShape],
+            assumptions=_A + ["R_sphere > 0; every aspect ratio of the sequence is an independent symbolic real"], bounds={"sequences": "the public ways of changing shape / aspect ratio, 1-3 steps (SEQS)"},
+            params={"quick": [{"seq": q} for q in SEQS], "thorough": [{"seq": q} for q in SEQS]}),
 ]
 
 from harness.c15_extra import EXTRA as _EXTRA
